@@ -46,11 +46,11 @@ Proof.
     assert (K : pmemb (a, b) ((a, b) :: l) = true) by (apply pmemb_In; left; reflexivity). congruence.
 Qed.
 
-Lemma B_nil_gequiv_iff g g' : gequiv g g' -> (B g = [] <-> B g' = []).
+Lemma B_nil_gequiv06 g g' : gequiv g g' -> (B g = [] <-> B g' = []).
 Proof. intros He. rewrite !B_nil_iff. split; intros H a b; [rewrite <- (gequiv_b g g' a b He)|rewrite (gequiv_b g g' a b He)]; apply H. Qed.
-Lemma U_nil_gequiv_iff g g' : gequiv g g' -> (U g = [] <-> U g' = []).
+Lemma U_nil_gequiv06 g g' : gequiv g g' -> (U g = [] <-> U g' = []).
 Proof. intros He. rewrite !U_nil_iff. split; intros H a b; [rewrite <- (gequiv_u g g' a b He)|rewrite (gequiv_u g g' a b He)]; apply H. Qed.
-Lemma C_nil_gequiv_iff g g' : gequiv g g' -> (C g = [] <-> C g' = []).
+Lemma C_nil_gequiv06 g g' : gequiv g g' -> (C g = [] <-> C g' = []).
 Proof. intros He. rewrite !C_nil_iff. split; intros H a b; [rewrite <- (gequiv_c g g' a b He)|rewrite (gequiv_c g g' a b He)]; apply H. Qed.
 
 Lemma only_directed_gequiv d d' : gequiv d d' -> gequiv (only_directed d) (only_directed d').
@@ -110,7 +110,7 @@ Proof.
   - intros [p H]. exists (mp f p). apply inducing_path_def_rmap. exact H.
 Qed.
 
-Theorem is_dag_rmap d : is_dag (rmap f d) <-> is_dag d.
+Theorem c06_is_dag_rmap d : is_dag (rmap f d) <-> is_dag d.
 Proof. unfold is_dag. rewrite (wf_rmap f finj), (acyclicb_rmap_eq f finj). simpl. rewrite !pmap_nil. tauto. Qed.
 
 Theorem dsep_rmap d X Y Z : dsep (rmap f d) (map f X) (map f Y) (map f Z) <-> dsep d X Y Z.
@@ -167,10 +167,10 @@ Proof.
   intros He HL HS. split; intros [p H]; exists p; apply (inducing_path_def_order_free g g' L L' S S' x p y He HL HS); exact H.
 Qed.
 
-Theorem is_dag_order_free d d' : gequiv d d' -> (is_dag d <-> is_dag d').
+Theorem c06_is_dag_order_free d d' : gequiv d d' -> (is_dag d <-> is_dag d').
 Proof.
   intros He. unfold is_dag.
-  rewrite (wf_gequiv d d' He), (B_nil_gequiv_iff d d' He), (U_nil_gequiv_iff d d' He), (C_nil_gequiv_iff d d' He), (acyclicb_gequiv d d' He).
+  rewrite (wf_gequiv d d' He), (B_nil_gequiv06 d d' He), (U_nil_gequiv06 d d' He), (C_nil_gequiv06 d d' He), (acyclicb_gequiv d d' He).
   tauto.
 Qed.
 
